@@ -1,6 +1,7 @@
 package main
 
 import (
+	"runtime/pprof"
 	"encoding/json"
 	"flag"
 	"fmt"
@@ -180,6 +181,11 @@ func matchKnown(kf KnownFile, prop, obl string) *KnownFinding {
 }
 
 func cmdCheck(args []string) {
+	if pf := os.Getenv("GPV_PROF"); pf != "" {
+		f, _ := os.Create(pf)
+		pprof.StartCPUProfile(f)
+		defer pprof.StopCPUProfile()
+	}
 	fs := flag.NewFlagSet("check", flag.ExitOnError)
 	prop := fs.String("p", "", "property id")
 	tier := fs.String("tier", "quick", "quick|thorough")
@@ -258,6 +264,18 @@ func cmdCheck(args []string) {
 		}
 	}
 
+	var xConfirmed, xInconclusive int
+	var sens []sensResult
+	if *tier == "thorough" {
+		var dis []string
+		xConfirmed, xInconclusive, dis = crossCheck(frs, runtime.NumCPU())
+		for _, d := range dis {
+			toolErrs = append(toolErrs, "solver disagreement: "+d)
+		}
+		if *scratch == "" {
+			sens = sensitivity(*prop)
+		}
+	}
 	kf := loadKnown()
 	total, discharged, violations := 0, 0, 0
 	bySolver := map[string]int{}
@@ -311,7 +329,11 @@ func cmdCheck(args []string) {
 			violations++
 			path := writeReplay(replayDir, *prop, fr, o)
 			suffix := " no-failing-input-found"
-			if ro := tryReplay(repoDir, filepath.Join(work, "replay"), fr, o); ro != nil {
+			var ro *replayOutcome
+			if os.Getenv("GPV_NO_REPLAY") == "" {
+				ro = tryReplay(repoDir, filepath.Join(work, "replay"), fr, o)
+			}
+			if ro != nil {
 				addReplayOutcome(path, ro)
 				if ro.Confirmed {
 					suffix = ""
@@ -372,6 +394,8 @@ func cmdCheck(args []string) {
 			"abstracted":               sortedKeys(notes),
 			"known_findings":           knownLines,
 			"tool_errors":              toolErrs,
+			"thorough_second_solver":   map[string]int{"confirmed": xConfirmed, "inconclusive": xInconclusive},
+			"thorough_sensitivity":     sens,
 		},
 		"assumptions": sortedKeys(assume),
 		"wall_s":      time.Since(t0).Seconds(),
